@@ -154,12 +154,16 @@ struct BlendRowMaskClip;
 
 fn blend_row_mask_clip<T: blend::Blend>(src: &[u32], mask: &[u8], clip: &[u8], dst: &mut [u32]) {
     for (((dst, src), mask), clip) in dst.iter_mut().zip(src).zip(mask).zip(clip) {
-        *dst = alpha_lerp(
-            *dst,
-            T::blend(*src, *dst),
-            *mask as u32,
-            *clip as u32
-        );
+        // combine coverage and clip into one 0..=255 weight so that full coverage under a full
+        // clip gives exactly the blend result and zero coverage leaves the pixel alone
+        let alpha = muldiv255(*mask as u32, *clip as u32);
+        if alpha != 0 {
+            *dst = lerp(
+                *dst,
+                T::blend(*src, *dst),
+                alpha_to_alpha256(alpha),
+            );
+        }
     }
 }
 
